@@ -205,6 +205,18 @@ mod mapprobe {
     match pie.resource_state::<R>().get::<S>() { Some(s) => format!("Some[{}]", s.show()), None => "None".into() }
   }
   fn set<R: Resource, S: StateTy>(pie: &mut Pie<()>, v: i64) { pie.resource_state_mut::<R>().set::<S>(S::make(v)); }
+  // the type-erased and the mutable routes to the same slot
+  fn set_boxed<R: Resource, S: StateTy>(pie: &mut Pie<()>, v: i64) { pie.resource_state_mut::<R>().set_boxed(Box::new(S::make(v))); }
+  fn get_boxed<R: Resource, S: StateTy>(pie: &Pie<()>) -> String {
+    match pie.resource_state::<R>().get_boxed().and_then(|b| b.downcast_ref::<S>()) { Some(s) => format!("Some[{}]", s.show()), None => "None".into() }
+  }
+  fn get_mut<R: Resource, S: StateTy>(pie: &mut Pie<()>) -> String {
+    match pie.resource_state_mut::<R>().get_mut::<S>() { Some(s) => format!("Some[{}]", s.show()), None => "None".into() }
+  }
+  fn get_boxed_mut<R: Resource, S: StateTy>(pie: &mut Pie<()>) -> String {
+    match pie.resource_state_mut::<R>().get_boxed_mut().and_then(|b| b.downcast_mut::<S>()) { Some(s) => format!("Some[{}]", s.show()), None => "None".into() }
+  }
+  fn default_mut<R: Resource, S: StateTy + Default>(pie: &mut Pie<()>) -> String { format!("[{}]", pie.resource_state_mut::<R>().get_or_set_default_mut::<S>().show()) }
   fn default<R: Resource, S: StateTy + Default>(pie: &mut Pie<()>) -> String { format!("[{}]", pie.resource_state_mut::<R>().get_or_set_default::<S>().show()) }
 
   macro_rules! by_state { ($s:expr, $f:ident, $r:ty, $($a:expr),*) => { match $s {
@@ -258,6 +270,11 @@ mod mapprobe {
         match t.next() {
           "g" => { let r: u32 = t.num(); let s: u32 = t.num(); writeln!(out, "g {}", by_res!(r, s, get, &pie)).unwrap(); }
           "s" => { let r: u32 = t.num(); let s: u32 = t.num(); let v: i64 = t.num(); by_res!(r, s, set, &mut pie, v); writeln!(out, "u").unwrap(); }
+          "S" => { let r: u32 = t.num(); let s: u32 = t.num(); let v: i64 = t.num(); by_res!(r, s, set_boxed, &mut pie, v); writeln!(out, "u").unwrap(); }
+          "G" => { let r: u32 = t.num(); let s: u32 = t.num(); writeln!(out, "g {}", by_res!(r, s, get_boxed, &pie)).unwrap(); }
+          "M" => { let r: u32 = t.num(); let s: u32 = t.num(); writeln!(out, "g {}", by_res!(r, s, get_mut, &mut pie)).unwrap(); }
+          "B" => { let r: u32 = t.num(); let s: u32 = t.num(); writeln!(out, "g {}", by_res!(r, s, get_boxed_mut, &mut pie)).unwrap(); }
+          "D" => { let r: u32 = t.num(); let s: u32 = t.num(); writeln!(out, "d {}", by_res!(r, s, default_mut, &mut pie)).unwrap(); }
           "d" => { let r: u32 = t.num(); let s: u32 = t.num(); writeln!(out, "d {}", by_res!(r, s, default, &mut pie)).unwrap(); }
           "r" => { let kt: u32 = t.num(); let k: u32 = t.num(); writeln!(out, "r {}", o(by_key!(kt, read, &mut pie, k))).unwrap(); }
           "w" => { let kt: u32 = t.num(); let k: u32 = t.num(); let v: i64 = t.num(); by_key!(kt, insert, &mut pie, k, v); writeln!(out, "u").unwrap(); }
